@@ -64,6 +64,14 @@ CHECKS.update({
          "Each answer/zero/rejection is judged against sampled models and the closure oracle. Held = no violation outside the listed mechanisms.",
          "trusts O1/O2/O5; listed findings (four inherited from ID*, four of IDC*) mask further defects inside their sub-families", "DESIGN §4 C08"),
 })
+CHECKS.update({
+ "C05": ("post-condition on the real identify_target_outcomes: estimand evaluated on FAMILIES of exact random SCMs (target + per-domain copies re-drawn exactly at the independently recomputed differing nodes, compared with y0's T_ nodes) vs P*(y|do x) for all assignments; no-domain verdict vs Tian-Pearl reference; exception recorder; argument snapshots; generator biased beyond plain identifiability",
+         "Soundness of every returned estimand on sampled families, the ID-equivalence clause without domains and totality are decided per call. Held = no violation outside the listed mechanism.",
+         "trusts O1/O2, the reading of PP[pi_i][Z'] as the experiment do(Z'=context value) in domain i, and the published selection-diagram construction", "DESIGN §4 C05"),
+ "C06": ("syntactic-walk post-conditions on all five entry points (ID, IDC, TRSO, ID*, IDC*) over a large structural-only workload (no model evaluation), plus the same walk riding on the C01/C03/C05/C07/C08 workloads",
+         "Every returned expression is walked leaf by leaf against the vocabulary its algorithm is allowed. Held = no foreign leaf on the executions listed.",
+         "vocabulary per the property statement; declared domains and experiment sets taken from the call's own arguments", "DESIGN §4 C06"),
+})
 PLANNED = {}
 
 def main():
